@@ -23,7 +23,7 @@ RULE = ('cases are histories of 4-12 steps (sign, corrupt, tick across expiry, v
         'wrong signature) present together with at least one advisory weakness; distinct = distinct (issue-class combination, '
         'subject kind, signature count) sets')
 TIERS = {'quick': {'runs': 4000, 'budget_s': 80}, 'thorough': {'runs': 200000, 'budget_s': 1500}}
-PROBES = ('issuer_forged_to_encryption_subkey', 'results_combined', 'combined_good_then_bad', 'expired_and_insecure_curve', 'expired_and_short_key', 'expired_and_revoked', 'expired_strong', 'wrongsig_and_revoked',
+PROBES = ('key_lifetime_changed_by_newer_self_certification', 'newest_self_certification_names_issuer_by_key_id_only', 'secret_key_verifies', 'secret_key_with_older_public_copy', 'issuer_forged_to_encryption_subkey', 'results_combined', 'combined_good_then_bad', 'expired_and_insecure_curve', 'expired_and_short_key', 'expired_and_revoked', 'expired_strong', 'wrongsig_and_revoked',
           'wrongsig_and_insecure_curve', 'wrongsig_and_short_key', 'wrongsig_and_weak_hash', 'clock_crossed_expiry', 'verifier_behind_signer',
           'multi_signature_call', 'verify_key_call', 'subkey_revoked_signer', 'all_good')
 KEYALGS = ['ed25519', 'ed25519', 'p256', 'p384', 'secp256k1', 'rsa1024', 'dsa1024', 'rsa2048', 'dsa2048']
@@ -48,7 +48,12 @@ def generate(rng, tier):
     for i in range(n):
         sid = 's%d' % i
         r = rng.random()
-        if r < 0.3:
+        if r < 0.1:
+            # the key's owner certifies the identity again, with another key lifetime; the issuer is named by key id alone (as
+            # older implementations do) or by fingerprint: the most recent self-certification decides
+            steps.append({'id': sid, 'op': 'recertify', 'key': rng.choice(knames), 'key_expiration_s': rng.choice([7 * DAY, 10 * DAY, 400 * DAY, 4000 * DAY]),
+                          'no_issuer_fpr': rng.random() < 0.6})
+        elif r < 0.3:
             steps.append({'id': sid, 'op': 'tick', 'delta_s': rng.choice([0, 1, DAY, 11 * DAY, 401 * DAY, 401 * DAY, 4001 * DAY, -2 * DAY, -500 * DAY])})
         else:
             kind = rng.choice(['doc', 'doc', 'msg', 'msg', 'cert_self', 'cert_other', 'inkey'])
@@ -56,14 +61,15 @@ def generate(rng, tier):
                           'hash': rng.choice([8, 8, 10, 2, 1, 11]), 'nsigners': rng.choice([1, 2, 3]),
                           'corrupt': rng.choice([None, None, 'subject', 'sig', 'sig', 'issuer_encsub']), 'pos': rng.random(), 'bit': rng.randrange(8),
                           'verify_after_tick_s': rng.choice([0, 0, 11 * DAY, 401 * DAY, -DAY]),
-                          'combine': rng.choice([None, None, 'and', 'iand']), 'cosign_subkey': rng.random() < 0.4})
+                          'combine': rng.choice([None, None, 'and', 'iand']), 'cosign_subkey': rng.random() < 0.4,
+                          'vform': rng.choice([None, None, None, 'secret', 'stale_twin'])})
     return {'config': {'keys': keys, 'start_us': 1_500_000_000_000_000 + 5 * DAY * 1_000_000}, 'steps': steps}
 
 
 def simplify(case):
     for i, s in enumerate(case['steps']):
         if s['op'] == 'sign_verify':
-            for f, v in (('nsigners', 1), ('hash', 8), ('corrupt', None), ('verify_after_tick_s', 0)):
+            for f, v in (('nsigners', 1), ('hash', 8), ('corrupt', None), ('verify_after_tick_s', 0), ('vform', None)):
                 if s.get(f) != v:
                     c = copy.deepcopy(case)
                     c['steps'][i][f] = v
@@ -100,8 +106,9 @@ def execute(case, ctx):
     import pgpy
     cfg = case['config']
     clock = seams.clock()
-    w = sigworld.SigWorld(cfg['keys'], ctx)
+    w = sigworld.SigWorld(copy.deepcopy(cfg['keys']), ctx)
     clock.set(cfg['start_us'])
+    newest = {}
     combos = set()
     w.results = []
     for step in case['steps']:
@@ -114,9 +121,59 @@ def execute(case, ctx):
                 ctx.probe('verifier_behind_signer')
             ctx.event(step['id'], 'tick', step['delta_s'])
             continue
+        if step['op'] == 'recertify':
+            name = step['key']
+            k = w.keys.get(name)
+            sec = clock.us // 1_000_000
+            if k is None or k.is_public or sec <= newest.get(name, w.cfg[name]['created_us'] // 1_000_000):
+                continue
+            C = pgpy.constants
+            uid = k.userids[0]
+            uid |= k.certify(uid, C.SignatureType.Positive_Cert, usage=world.flags_from(w.cfg[name].get('usage', 'CS')),
+                             hashes=[C.HashAlgorithm.SHA256], key_expiration=datetime.timedelta(seconds=step['key_expiration_s']),
+                             include_issuer_fingerprint=not step['no_issuer_fpr'])
+            newest[name] = sec
+            w.cfg[name]['key_expiration_s'] = step['key_expiration_s']
+            ctx.probe('key_lifetime_changed_by_newer_self_certification')
+            if step['no_issuer_fpr']:
+                ctx.probe('newest_self_certification_names_issuer_by_key_id_only')
+            ctx.event(step['id'], 'recertify', step['key_expiration_s'])
+            continue
         _sign_verify(pgpy, w, step, ctx, combos)
     if combos:
         ctx.mark_nontrivial(';'.join(sorted(combos)))
+
+
+def _verifier_form(pgpy, w, name, art, step, ctx, keep):
+    """The verifier may hold the key in another form than a freshly imported public key: its own secret key, or its secret
+    key linked (documented `pubkey` setter) to a public copy that was exported before the current self-signatures were made.
+    The conditions of the key that was asked to verify decide, not those of an object linked to it."""
+    form = step.get('vform')
+    own = w.keys[name]
+    if not form or own.is_public or art.verifier != bytes(own.pubkey):
+        return None
+    sec = pgpy.PGPKey.from_blob(bytes(own))[0]
+    if form == 'stale_twin':
+        try:
+            pk = split_packets(art.verifier)
+        except WireError:
+            return None
+        out, after_uid = bytearray(), False
+        for p in pk:
+            if p.tag in (13, 17):
+                after_uid = True
+            elif p.tag == 14:
+                after_uid = False
+            if p.tag == 2 and after_uid and len(p.body) > 1 and p.body[1] in (0x10, 0x11, 0x12, 0x13):
+                continue
+            out += p.raw
+        pub = pgpy.PGPKey.from_blob(bytes(out))[0]
+        sec.pubkey = pub
+        keep.append(pub)
+        ctx.probe('secret_key_with_older_public_copy')
+    else:
+        ctx.probe('secret_key_verifies')
+    return sec
 
 
 def _sign_verify(pgpy, w, step, ctx, combos):
@@ -184,6 +241,7 @@ def _sign_verify(pgpy, w, step, ctx, combos):
     if step.get('verify_after_tick_s'):
         clock.advance(step['verify_after_tick_s'] * 1_000_000)
     now = clock.us
+    keep = []
     # --- verifier
     try:
         if art.kind == 'inkey':
@@ -191,7 +249,7 @@ def _sign_verify(pgpy, w, step, ctx, combos):
             res = K.verify(K)
             ctx.probe('verify_key_call')
         else:
-            res = w.pgpy_verify(art)
+            res = w.pgpy_verify(art, verifier=_verifier_form(pgpy, w, name, art, step, ctx, keep))
     except Exception as e:
         ctx.event(step['id'], 'verify', 'raised', type(e).__name__)
         clock.set(max(now, t_sign))
